@@ -19,9 +19,9 @@ func init() { checks["C04"] = c04{} }
 func (c04) Level() string { return "exploration" }
 func (c04) NumCases(tier string) int {
 	if tier == "thorough" {
-		return 8000
+		return 16000
 	}
-	return 480
+	return 640
 }
 func c04Schedules(tier string) int {
 	if tier == "thorough" {
@@ -94,7 +94,11 @@ func genC04(r *Rng, tier string) *C04Case {
 				g.feat[f] = true // most concurrency templates use every tag
 			}
 		}
-		cs.Trees = append(cs.Trees, g.Template(cs.Envs[0]))
+		t := g.Template(cs.Envs[0])
+		if i > 0 && r.Chance(0.3) {
+			t = g.Sibling(cs.Trees[r.Intn(i)], cs.Envs[0])
+		}
+		cs.Trees = append(cs.Trees, t)
 	}
 	for _, t := range cs.Trees {
 		cs.Sources = append(cs.Sources, Source(t))
